@@ -212,10 +212,43 @@ def _generated(rng, tier, focus, allow_degenerate=True):
           "auto_guess": auto_guess, "ignore_h": rng.random() < 0.6, "steps_factor": steps_factor,
           "sigma_scale": rng.choice([0.5, 0.5, rng.uniform(0.05, 2.0)]),
           "np_seed": rng.randrange(2 ** 32), "script": gen_script(rng)}
+    if focus == "C06" and min(n_start, n_end) >= 2 and rng.random() < 0.2:
+        # the SAME Alignment object is used again: after the first alignment the mobile molecule is re-assigned with another
+        # conformation of the same species (other bond lengths) and aligned once more
+        tr["second"] = {"amp": rng.choice([0.02, 0.05, 0.1]), "seed": rng.randrange(2 ** 31), "also_fixed": rng.random() < 0.3}
     if focus == "C09" and rng.random() < 0.3:
         # drive the optimiser entry point directly: any step budget 1..2000
         tr["mode"] = "direct"
         tr["n_steps"] = rng.choice([1, 2, 3, rng.randint(1, 50), rng.randint(1, 400), rng.randint(1, 2000 if tier == "thorough" else 600)])
+        mob = end if start_fixed else start
+        n_mob_atoms = len(mob["positions"])
+        if n_mob_atoms >= 4 and len(mob["edges"]) == n_mob_atoms - 1 and rng.random() < 0.25:
+            # the optimiser entry point is handed a mobile set in two bonded pieces, and every fixed atom is restrained to
+            # atoms of ONE piece: moves inside the other piece leave the measure EXACTLY unchanged -- the "equal measure is
+            # always accepted" half of the rule, which generic connected molecules never reach
+            edges = [list(e) for e in mob["edges"]]
+            cut = edges.pop(rng.randrange(len(edges)))
+            adj = gen.adjacency(n_mob_atoms, [tuple(e) for e in edges])
+            comp, todo = {cut[0]}, [cut[0]]
+            while todo:
+                v = todo.pop()
+                for w in adj[v]:
+                    if w not in comp:
+                        comp.add(w)
+                        todo.append(w)
+            piece = sorted(comp)
+            if len(piece) < 2 or n_mob_atoms - len(piece) < 2:
+                return tr              # every atom keeps at least one bond (the move needs a bonded neighbour)
+            mob["edges"] = edges
+            nf = n_start if start_fixed else n_end
+            restr = []
+            for i in range(nf):
+                j = rng.choice(piece)
+                restr.append([i, j] if start_fixed else [j, i])
+            tr["restraints"] = restr
+            tr["two_piece_mobile"] = True
+            if tr["deform"] is not None and 2 not in tr["deform"]:
+                tr["deform"] = tr["deform"] + [2]
     return tr
 
 
@@ -530,6 +563,8 @@ class Watch:
         # the rule
         if e1 <= e0:
             expect = True
+            if e1 == e0 and not np.array_equal(cur["proposal"], self.held):
+                ctx.probe("equal_measure_other_configuration")
         elif u is None:
             expect = None
             ctx.probe("acceptance_draw_not_observed")
@@ -894,6 +929,8 @@ def execute(trace, ctx):
         ctx.probe("shipped_pair")
     if trace.get("degenerate"):
         ctx.probe("degenerate_mobile_geometry")
+    if trace.get("two_piece_mobile"):
+        ctx.probe("two_piece_mobile_direct")
     if outcome == "extra-draw":
         return
     if outcome.startswith("raised"):
@@ -908,8 +945,10 @@ def execute(trace, ctx):
         ctx.violate("C06", "caller-molecule-modified", f"alignment changed the {d} of a molecule supplied by the caller"
                                                        f"{' (one was supplied by re-assigning start/end)' if later else ''}")
     check_c09_end(trace, ctx, watch, info)
-    # ---- repeat: the outcome is a deterministic function of inputs and seed ---------------------------
     final1 = _final(trace, ali, info)
+    if trace.get("second") and trace["mode"] == "align":
+        _second_round(trace, ctx, ali, start_fixed, tree_mobile, deform, mobile_spec, restr)
+    # ---- repeat: the outcome is a deterministic function of inputs and seed ---------------------------
     ali2, _, outcome2, info2, _ = run(False)
     final2 = _final(trace, ali2, info2)
     if outcome2 != outcome or any(not np.array_equal(a, b) for a, b in zip(final1, final2)):
@@ -918,6 +957,49 @@ def execute(trace, ctx):
     for f in final1:
         ctx.ev("final", f)
     ctx.sig.append(tuple(watch.sig))
+
+
+def _second_round(trace, ctx, ali, start_fixed, tree_mobile, deform, mobile_spec, restr):
+    """Re-assign the mobile molecule (another conformation, other bond lengths) on an Alignment that has already aligned,
+    align again, and apply the end-state oracles of C06 to the second alignment."""
+    from gaddlemaps import Alignment
+    sec = trace["second"]
+    r2 = _random.Random(sec["seed"])
+    mob_key, fix_key = ("end", "start") if start_fixed else ("start", "end")
+    spec = trace[mob_key]
+    pos = np.array(spec["positions"], dtype=float)
+    for _ in range(50):
+        new = pos + np.array([np.array(gen.unit_vec(r2)) * r2.uniform(0.2, 1.0) * sec["amp"] for _ in range(len(pos))])
+        d = np.linalg.norm(new[:, None] - new[None, :], axis=-1) + np.eye(len(new))
+        if d.min() > 0.02:
+            break
+    else:
+        return
+    try:
+        setattr(ali, mob_key, gen.make_molecule(spec, positions=new.tolist()))
+        if sec.get("also_fixed"):
+            fs = trace[fix_key]
+            setattr(ali, fix_key, gen.make_molecule(fs, positions=(np.array(fs["positions"]) + np.array([0.3, -0.2, 0.1])).tolist()))
+    except Exception as e:
+        ctx.violate("C06", "reassignment-refused", f"re-assigning another conformation of the same molecule raised {type(e).__name__}: {e}")
+        return
+    ini_s, ini_e = mol_snapshot(ali.start), mol_snapshot(ali.end)
+    old_sf, old_ss = Alignment.STEPS_FACTOR, Alignment.SIGMA_SCALE
+    Alignment.STEPS_FACTOR, Alignment.SIGMA_SCALE = trace["steps_factor"], trace["sigma_scale"]
+    try:
+        with RandomSeam(ctx, (trace["np_seed"] + 1) % (2 ** 32), log=False):
+            if restr is None:
+                ali.align_molecules(restrictions=None, deformation_types=deform, ignore_hydrogens=trace["ignore_h"],
+                                    auto_guess_protein_restrictions=bool(trace.get("auto_guess", True)))
+            else:
+                ali.align_molecules(restrictions=list(restr), deformation_types=deform, ignore_hydrogens=trace["ignore_h"])
+    except Exception as e:
+        ctx.violate("C06", "alignment-raised", f"second alignment on the same object raised {type(e).__name__}: {e}", key=type(e).__name__)
+        return
+    finally:
+        Alignment.STEPS_FACTOR, Alignment.SIGMA_SCALE = old_sf, old_ss
+    ctx.probe("second_alignment_after_reassignment")
+    check_c06(trace, ctx, ali, ini_s, ini_e, start_fixed, tree_mobile, deform, mobile_spec)
 
 
 class _NullCtx:
